@@ -150,6 +150,17 @@ def check_case(case, with_dsl=True):
         vs.append(Violation("grid:" + dtkind, "timerange of the transpiled model %r (%d points), expected %r (%d points)" % (tr[-3:], len(tr), grid[-3:], len(grid))))
         return info, vs
     eval_grid = grid if exact else tr  # for 1/3 etc. the model's own labels are used for evaluation
+    if not exact:
+        # ... and the reference reads time() off the same labels: 2/3 has no exact label, and a graphical function with a
+        # knot there amplifies the last digits of the label
+        try:
+            rm = SM.RefModel(abstract, limit=1e9)
+            rm.grid = [float(x) for x in tr]
+            ref = rm.run()
+            scale = SM.model_scale(ref)
+        except E.Fragile:
+            info["status"] = "fragile"
+            return info, vs
     try:
         # a fresh instance of the transpiled model queried top-down (empty memo: t-dt chains down to the start)
         fresh = type(model)()
